@@ -1,8 +1,8 @@
 """C14 - classic conjugate gradient solves positive definite systems (DESIGN 2/C14).
 
 System recipe (all sub-checks):
-  {"n": int, "cplx": bool, "le": [int]*n, "ls": int, "hh": [seed, ...], "b": [num]*n | None,
-   "x0": [num]*n | None, "prec": None | {"kind": "hpd", "le": [...], "hh": [...]} | {"kind": "jacobi"}
+  {"n": int, "cplx": bool, "le": [int]*n, "ls": int, "hh": [seed, ...], "b": vec | None, "x0": vec | None,
+   (vec = {"re": [float]*n, "im": [float]*n | None}, multiples of 1/8 in [-4, 4]) "prec": None | {"kind": "hpd", "le": [...], "hh": [...]} | {"kind": "jacobi"}
    | {"kind": "exact"}, ...}
   A = Q diag(lam) Q^H, lam_i = 2^(ls + le_i/4), Q = product of Householder reflections whose vectors
   are expanded from the integer seeds by a fixed LCG (dyadic entries), symmetrised once.  The matrix
@@ -36,7 +36,6 @@ from hypothesis import strategies as st
 import nifty.cl as ift
 from vlib import Discard, Sub, Violation, require
 from vlib import nx
-from vlib import strat as S
 
 PROPERTY = "C14"
 LEVEL = "exploration"
@@ -118,10 +117,12 @@ def hpd(n, le, ls, seeds, cplx):
     return np.ascontiguousarray(A)
 
 
-def vec_of(lst, n):
-    v = nx.arr(lst)
-    require(v.shape == (n,), "recipe", "vector length")   # harness-side sanity (never triggers)
-    return v
+def vec_of(v, n):
+    """recipe vector {"re": [...], "im": [...] | None} -> ndarray"""
+    re = np.array(v["re"], dtype=np.float64)
+    out = re if v.get("im") is None else re + 1j * np.array(v["im"], dtype=np.float64)
+    assert out.shape == (n,)
+    return out
 
 
 class System:
@@ -846,13 +847,13 @@ def spectrum(draw, n, cmax):
 
 @st.composite
 def vector(draw, n, cplx, nonzero=False):
-    el = S.cplx(S.dyadic(-4, 4, 8)) if cplx else S.dyadic(-4, 4, 8)
-    v = draw(S.vec(n, el))
+    """{"re": [k/8 ...], "im": [k/8 ...] | None}, entries in [-4, 4]"""
+    part = st.lists(st.integers(-32, 32), min_size=n, max_size=n)
+    re = [k / 8.0 for k in draw(part)]
+    im = [k / 8.0 for k in draw(part)] if cplx else None
     if nonzero and n:
-        v = list(v)
-        h = draw(S.dyadic_nz(0.125, 4, 8))
-        v[0] = {"re": h, "im": v[0]["im"]} if cplx else h
-    return v
+        re[0] = draw(st.integers(1, 32)) / 8.0 * (1 if draw(st.booleans()) else -1)
+    return {"re": re, "im": im}
 
 
 @st.composite
